@@ -50,7 +50,7 @@ CHECKS = {
    text="Each fault kind is injected at every position in turn; Read must return an error that identifies the line or wraps the injected cause (errors.Is/As); a fault that leaves Read parked is a violation. Clean and line-wise interleaved streams must yield exactly one UserAction per kernel event that reflects all its records. Every kernel event carries a unique marker that must reappear in exactly one UserAction; two events per millisecond share a timestamp; three or more events are interleaved line-wise; in late-login streams the hold queue is flushed through a failing writer.",
    note="auparse.ParseLogLine is the judge of well-formedness.", ref="4 C15"),
  "C08": dict(engine="mon-daemon", cat="fault_enumeration", tech="process-level monitor on the built binary: fault injection per cause x load, wait4 status, SIGQUIT goroutine-dump hang classification; saturation precondition observed from writer stalls",
-   text="The daemon binary built from the working tree is run with two FIFOs; each failure cause (including either pipe's end-of-stream in the middle of a record) is injected at idle and (where meaningful) while a pumping writer keeps the audit pipe full (observed: write(2) hit EAGAIN >= 5 times). The process must exit (a non-exit is a violation only when the SIGQUIT dump shows main parked in errgroup.Wait and a worker parked) with non-zero status after failures. Saturation is measured: the pump feeds events of a correlated session, and the number of lines written to the pipe but not yet out as events must have stopped growing while write(2) keeps hitting EAGAIN (it then equals buffer capacity + pipe content; 10000 or more counts at once); causes are injected in-stream; every cause is also run with the other pipe still waiting for its writer. Thorough repeats x3 and with the -race build. Scenario dimensions also include the log level (debug/info), the metrics/health HTTP server with a scraper that stops reading its response, and a pipe whose writer never appears. Every cause also runs with -audit-metrics (one more member of the worker group).",
+   text="The daemon binary built from the working tree is run with two FIFOs; each failure cause (including either pipe's end-of-stream in the middle of a record) is injected at idle and (where meaningful) while a pumping writer keeps the audit pipe full (observed: write(2) hit EAGAIN >= 5 times). The process must exit (a non-exit is a violation only when the SIGQUIT dump shows main parked in errgroup.Wait and a worker parked) with non-zero status after failures. Saturation is measured: the pump feeds events of a correlated session, and the number of lines written to the pipe but not yet out as events must have stopped growing while write(2) keeps hitting EAGAIN (it then equals buffer capacity + pipe content; 10000 or more counts at once); causes are injected in-stream; every cause is also run with the other pipe still waiting for its writer. Thorough repeats x3 and with the -race build. Scenario dimensions also include the log level (debug/info), the metrics/health HTTP server with a scraper that stops reading its response, and a pipe whose writer never appears. Every cause also runs with -audit-metrics (one more member of the worker group). Both signals are also sent while the daemon still waits for its events output file to appear.",
    note="A write failure triggered by a correlated audit event cannot be arranged on the binary (/dev/full fails the login event first); it is enumerated in-process by C15.", ref="4 C08"),
  "C10": dict(engine="mon-daemon", cat="exploration", tech="offline checker over the daemon's output file after a marker-session barrier; in-process logical-clock order check under the race detector",
    text="Concurrent writers on both FIFOs (window 0..unbounded), 50-500 sessions, events up to 64 KiB; every output line must decode as exactly one JSON audit event with mandatory fields, no event key twice, each UserAction after the UserLogin carrying its identity. In-process: shared writer over the recorder, login line and LOGIN record released at the same instant, UserLogin write returns before any UserAction write with its identity starts. Thorough adds the -race daemon. A burst scenario keeps both pipelines writing for as long as the slower one needs, and a phased scenario delivers all audit records before any sshd line (every UserAction then comes from a hold-queue flush). Every other scenario starts on an events file that already holds an earlier run's output, which must stay intact.",
